@@ -86,7 +86,11 @@ def check_tree(sp):
     if r == "rule":
         raise Violation("tree-collecting-raised", "validate.tree(root, errs) raised a rule error", case)
     concat = [x for lst in lists for x in lst]
-    if terrs != concat:
+
+    def norm(lst):
+        # error tuples may carry the offending float value; NaN != NaN must not make equal reports look different
+        return [tuple("NaN" if isinstance(v, float) and v != v else v for v in x) if isinstance(x, tuple) else x for x in lst]
+    if norm(terrs) != norm(concat):
         raise Violation("collecting-" + ("missing" if len(terrs) < len(concat) else "extra" if len(terrs) > len(concat)
                                          else "reordered-or-different"),
                         f"tree list has {len(terrs)} entries, concatenation of per-node lists has {len(concat)}; "
